@@ -430,6 +430,31 @@ def run_center(case, ctx):
         ctx.stratum("center: non-default row index")
     if any(c[1] == 1 for c in case["chroms"]):
         ctx.stratum("center: table with a single-bin chromosome")
+    # expect_flat_log2 on every chromosome subset (also Y without X, X without Y), on an array nothing has been asked of yet
+    for male_ref in (False, True):
+        fresh = build_cna(rows, depth=case.get("depth", False), index=index)
+        f = ctx.call(fresh.expect_flat_log2, male_ref)
+        fsub = {"male_reference": male_ref, "rows": rows if len(rows) <= 12 else f"{len(rows)} rows"}
+        if isinstance(f, Exc):
+            ctx.violation("expect_flat_log2 returns one value per bin", f"expect_flat_log2/raises/{f.key}/centre-tables", expected="0 / -1 per bin", observed=f, sub=fsub)
+            continue
+        ctx.trace()
+        f = [float(v) for v in f]
+        bad = set()
+        for i, r in enumerate(rows):
+            cls = "x" if r[0] == style + "X" else "y" if r[0] == style + "Y" else "autosome" if C.is_autosome_name(r[0]) else None
+            want = {"x": -1.0 if male_ref else 0.0, "y": -1.0, "autosome": 0.0}.get(cls)
+            if want is not None and (i >= len(f) or abs(f[i] - want) > TOL):
+                bad.add(cls)
+        ctx.stratum("expect_flat_log2 on a centre table" + (" without X" if not has_x else ""))
+        if bad or len(f) != len(rows):
+            ctx.violation(
+                "expect_flat_log2 is 0 on autosomes, -1 on Y, and -1 on X only for a male reference",
+                f"expect_flat_log2/{'male' if male_ref else 'female'}-reference/wrong-on:" + "+".join(sorted(bad)) + ("/no-x-bins" if not has_x else ""),
+                expected="0 / -1 per bin",
+                observed=f[:12],
+                sub=fsub,
+            )
     for est, by_chrom, skip_low, genome in config_list(case["configs"], has_x):
         sub = {"estimator": est, "by_chrom": by_chrom, "skip_low": skip_low, "diploid_parx_genome": genome, "rows": rows if len(rows) <= 12 else f"{len(rows)} rows"}
         est_name = "median" if est == "default" else est
